@@ -4,7 +4,9 @@
 package tx_pool
 
 // ---------------------------------------------------------------- C17: replacement rule, cache trimming, reject-before-mutate
+// Transactions held by the pool are well-formed (they were built by the decoder / NewTransaction).
 //@ trusted func (m *txSortedMap) Get(nonce uint64) (r *types.Transaction)
+//@   ensures r != nil ==> types.wfTx(r)
 //@ trusted func (m *txSortedMap) Put(tx *types.Transaction)
 //@   modifies *
 
@@ -12,11 +14,11 @@ package tx_pool
 // old price plus the configured percentage (threshold = old*(100+bump)/100, integer division last).
 //@ func (l *txList) Add(tx *types.Transaction, priceBump uint64) (inserted bool, replaced *types.Transaction)
 //@   for C17
-//@   requires l != nil && tx != nil && priceBump <= 1000000
+//@   requires l != nil && types.wfTx(tx) && priceBump <= 1000000
 //@   modifies *
 //@   opt noinline
 //@   opt assumecallreqs
-//@   ensures [replacementNeedsBump] inserted && replaced != nil ==> types.gpOf(tx) > types.gpOf(replaced) && types.gpOf(tx) >= (types.gpOf(replaced) * (100 + priceBump)) / 100
+//@   ensures [replacementNeedsBump] inserted && replaced != nil ==> old(types.gpOf(tx)) > old(types.gpOf(replaced)) && old(types.gpOf(tx)) >= (old(types.gpOf(replaced)) * (100 + priceBump)) / 100
 //@   ensures [rejectedReturnsNothing] !inserted ==> replaced == nil
 //@   atcall txSortedMap.Put requires [putOnlyWhenAccepted] old == nil || (types.gpOf(tx) > types.gpOf(old) && types.gpOf(tx) >= (types.gpOf(old) * (100 + priceBump)) / 100)
 
@@ -60,7 +62,7 @@ package tx_pool
 // is affordable from the sender's balance (value plus maximum fee) and pays for its intrinsic gas.
 //@ func (pool *TxPool) validateTx(tx *types.Transaction, local bool) (err error)
 //@   for C17
-//@   requires pool != nil && tx != nil && pool.gasPrice != nil
+//@   requires pool != nil && types.wfTx(tx) && pool.gasPrice != nil
 //@   modifies *
 //@   ensures [fitsBlockGasLimit] err == nil ==> types.txGas(tx) <= pool.currentMaxGas
 //@   ensures [nonNegativeValue] err == nil ==> types.txValue(tx) >= 0
@@ -77,7 +79,7 @@ package tx_pool
 //@   requires m != nil && tx != nil
 //@   modifies *
 //@   ensures [cachedViewInvalidated] len(m.cache) == 0 && cap(m.cache) == 0
-//@   ensures [stored] has(m.items, types.txNonce(tx)) && m.items[types.txNonce(tx)] == tx
+//@   ensures [stored] has(m.items, old(types.txNonce(tx))) && m.items[old(types.txNonce(tx))] == tx
 
 // Discard pops price-ordered REMOTE transactions; an entry is stale (and skipped) exactly when its hash
 // is no longer in the remote set — transactions migrated to the local set are never eviction victims.
